@@ -25,7 +25,8 @@ def variants(rng, base, tier):
         for tname in names:
             nf = len(dict(decls)[tname])
             for pos in sorted(set([0, nf // 2, nf])):
-                out.append(("excl:%s@%s[%d]" % (form["names"][0], tname, pos), G.decorate(decls, tname, pos, form), "excluded"))
+                fname = form["names"][0] if form["names"] else "embedded-" + form["type"][1]
+                out.append(("excl:%s@%s[%d]" % (fname, tname, pos), G.decorate(decls, tname, pos, form), "excluded"))
     # two excluded fields at once
     out.append(("excl:two", G.decorate(G.decorate(decls, "Root", 0, G.EXCLUDED_FORMS[2]), "Root", 99, G.EXCLUDED_FORMS[3]), "excluded"))
     for tname in names:
